@@ -449,9 +449,14 @@ class CarbonClientFactory(with_metaclass(PluginRegistrar, ReconnectingClientFact
       # Re-inject queued metrics.
       metrics = list(self.queue)
       log.clients("Re-injecting %d metrics from %s" % (len(metrics), self))
+      self.queue.clear()
+      if self.queueFull.called and self.router.countDestinations():
+          # This queue may be what paused the receivers. It will never drain
+          # through sendQueued() now, so report the space here.
+          if not self.queueHasSpace.called:
+              self.queueHasSpace.callback(0)
       for metric, datapoint in metrics:
           state.events.metricGenerated(metric, datapoint)
-      self.queue.clear()
 
   def disconnect(self):
     self.queueEmpty.addCallbacks(lambda result: self.stopConnecting(), log.err)
